@@ -107,13 +107,23 @@ func callParser(in parseInput) (ok bool, err error, shape string) {
 	panic("bad entry")
 }
 
+// mallocsOf counts the heap objects allocated while f runs (by every goroutine of the process; the worker runs one case at a time).
+func mallocsOf(f func()) uint64 {
+	var a, b runtime.MemStats
+	runtime.ReadMemStats(&a)
+	f()
+	runtime.ReadMemStats(&b)
+	return b.Mallocs - a.Mallocs
+}
+
 func init() {
 	fw.Register(&fw.Prop{
 		ID:    "C05",
 		Level: "exploration",
 		Rule: "cases = every prefix of every corpus file (repo testdata + harness corpus + generated valid files), all sequences of 1..2 (thorough: sampled 3..5) " +
 			"dictionary tags in every block context, seeded token deletions/duplications/swaps of valid files, seeded random bytes (invalid UTF-8, NUL, lone braces), " +
-			"and the same for standalone expressions and globals files; distinct = distinct input bytes per entry point; non-trivial = length >= 2",
+			"and the same for standalone expressions and globals files; deep nesting: 27 bracketing constructs repeated 12 .. 20000 (thorough 200000) times in 16 places that take an expression, " +
+			"10 block commands nested as deep, balanced and cut short; for depth 24 against 12 the heap allocations made by the parse may grow at most 64-fold. distinct = distinct input bytes per entry point; non-trivial = length >= 2",
 		N: func(tier string) int { return famCount(families(tier)) },
 		Setup: func(tier string, seed uint64, config string) string {
 			installParseBudget()
@@ -147,12 +157,30 @@ func init() {
 			if shape != "" {
 				return fw.Result{Verdict: fw.Violated, Key: "neither-tree-nor-error:" + in.Entry, Msg: shape, Case: in}
 			}
+			if in.Half != "" {
+				// work growth between nesting depth 12 and 24, counted in heap allocations (a count, not a time): a parser
+				// whose work is polynomial in the input stays far below 64x; one that doubles per level is at 4096x
+				half := in
+				half.Text, half.Half = in.Half, ""
+				mHalf := mallocsOf(func() { callParser(half) })
+				mFull := mallocsOf(func() { callParser(in) })
+				ctx.Obs("work_growth_pairs", 1)
+				ctx.Max("max_alloc_ratio_depth24_vs_12", float64(mFull)/float64(mHalf+1))
+				if mFull > 64*mHalf+20000 {
+					return fw.Result{Verdict: fw.Violated, Key: "work-explodes-with-depth:" + in.Entry, Case: in,
+						Msg: fmt.Sprintf("parsing the input nested 12 deep (%d bytes) makes %d heap allocations, nested 24 deep (%d bytes) %d: the work is not proportional to the input",
+							len(half.Text), mHalf, len(in.Text), mFull)}
+				}
+			}
 			return fw.Result{Verdict: fw.Held}
 		},
 		Floors: func(obs map[string]int64, cells map[string]bool, tier string) []string {
 			var why []string
 			if obs["outcome_tree"] == 0 || obs["outcome_error"] == 0 {
 				why = append(why, "both outcomes (tree, error) must be observed")
+			}
+			if obs["work_growth_pairs"] == 0 {
+				why = append(why, "no work-growth pair measured")
 			}
 			if obs["lex_steps"] == 0 || obs["parse_steps"] == 0 {
 				why = append(why, "step hooks never fired (hooks not linked?)")
